@@ -263,10 +263,21 @@ class Buildable(Generic[T], metaclass=abc.ABCMeta):
             f'Unexpected type received for the argument name: {key!r}'
         )
 
+    parameters = self.__signature_info__.parameters
     for name, tags in tag_type.find_tags_from_annotations(fn_or_cls).items():
-      self.__argument_tags__[name].update(tags)
+      param = parameters[name]
+      if param.kind in (param.VAR_POSITIONAL, param.VAR_KEYWORD):
+        # The annotation of `*args` / `**kwargs` describes every element; there
+        # is no single argument of that name that a tag could select.
+        continue
+      if param.kind == param.POSITIONAL_ONLY:
+        # Positional-only arguments are stored (and tagged) under their index.
+        key = list(parameters).index(name)
+      else:
+        key = name
+      self.__argument_tags__[key].update(tags)
       self.__argument_history__.add_updated_tags(
-          name, self.__argument_tags__[name]
+          key, self.__argument_tags__[key]
       )
 
   def __init_callable__(
